@@ -1,8 +1,8 @@
 INIT Init
 NEXT Next
 CONSTANTS
-  ListVals = {101, 102}
-  MaxListLen = 4
+  ListVals = {101, 102, 111}
+  MaxListLen = 3
   Bounds <- BoundsThorough
   StepsC <- StepsThorough
   NewVals = {105, 250}
